@@ -61,6 +61,9 @@ inductive Ev where
   /-- a leaf's response arrives at `TaskManager.Receive`; `accept`: which case `Submit`'s select takes
   (only relevant, and only a choice, when the context is done) -/
   | resp (r : Resp) (accept : Bool)
+  /-- a response whose task `Receive` had accepted earlier reaches `HandleResponse` now — possibly
+  after `exec` has returned and removed its task (the pool's worker was slow) -/
+  | inflight (r : Resp)
   /-- the deadline passes / the client cancels -/
   | deadline
   /-- `WaitResponse`'s select fires: through `doneCh` (`true`) or through the context (`false`) -/
@@ -85,6 +88,7 @@ def step (tol : Bool) (q : Req) : Ev → Option Req
     else if accept then some { q with ctx := handleRaw tol q.ctx r, handled := q.handled ++ [r] }
     else if q.ctxDone then some { q with dropped := q.dropped + 1 }         -- Submit: `case <-ctx.Done()`
     else none                                                                -- only the send case is ready
+  | .inflight r => some { q with ctx := handleRaw tol q.ctx r, handled := q.handled ++ [r] }
   | .deadline => some { q with ctxDone := true }
   | .wake viaDone =>
     if q.returned.isEmpty && q.registered && (if viaDone then q.ctx.completed else q.ctxDone) then
